@@ -23,7 +23,8 @@ theorem Good.pre {α : Type} {x : Res α} {n : Nat} (h : Good x n) (al : List Na
     refine ⟨fun _ hh => by simp at hh, ?_⟩
     intro a' r' al'' hh
     simp at hh
-    exact h.2 a r al' (by rw [hh.2.1])
+    rw [← hh.2.1]
+    exact h.2 a r al' rfl
   | err e al' =>
     refine ⟨?_, fun _ _ _ hh => by simp at hh⟩
     intro al'' hh
@@ -46,7 +47,8 @@ theorem Good.map {α β : Type} {x : Res α} {g : α → β} {n : Nat} (hx : Goo
     refine ⟨fun _ hh => by simp at hh, ?_⟩
     intro a' r' al' hh
     simp at hh
-    exact hx.2 a r al (by rw [hh.2.1])
+    rw [← hh.2.1]
+    exact hx.2 a r al rfl
   | err e al =>
     refine ⟨?_, fun _ _ _ hh => by simp at hh⟩
     intro al' hh
@@ -92,21 +94,25 @@ theorem readLen_good (bs : Bytes) : Good (readLen bs) (bs.length - 1) := by
   cases bs with
   | nil => exact good_err _ _ _ (by simp)
   | cons b r =>
-    unfold readLen
-    split
-    · exact good_ok _ _ _ _ (by simp)
-    · split
-      · cases r with
+    simp only [readLen, List.length_cons, Nat.add_sub_cancel]
+    by_cases h0 : b / 64 = 0
+    · simp only [h0, if_true]
+      exact good_ok _ _ _ _ (Nat.le_refl _)
+    · by_cases h1 : b / 64 = 1
+      · simp only [h1, if_true, if_false, Nat.reduceEqDiff]
+        cases r with
         | nil => exact good_err _ _ _ (by simp)
-        | cons c r' => exact good_ok _ _ _ _ (by simp; omega)
-      · split
-        · cases hh : readExact 4 r with
+        | cons c r' => exact good_ok _ _ _ _ (by simp)
+      · by_cases h2 : b / 64 = 2
+        · simp only [h2, if_true, if_false, Nat.reduceEqDiff]
+          cases hh : readExact 4 r with
           | none => exact good_err _ _ _ (by simp)
           | some p =>
             obtain ⟨h, r'⟩ := p
             have := readExact_length hh
-            exact good_ok _ _ _ _ (by simp; omega)
-        · exact good_err _ _ _ (by simp)
+            exact good_ok _ _ _ _ (by omega)
+        · simp only [h0, h1, h2, if_false]
+          exact good_err _ _ _ (by simp)
 
 theorem readString_good (bs : Bytes) : Good (readString bs) (bs.length - 1) := by
   unfold readString
@@ -352,7 +358,7 @@ theorem loadInto_good (fix : Fix) (s : Store) (bs : Bytes) (now : Nat) : Good (l
   · rd (readFixed_good 4 _)
     split
     · exact good_err _ _ _ (by simp)
-    · rename_i r' hr'
+    · rename_i v r' hr' hv
       exact (loadLoop_good fix now _ 0 s r' (Nat.lt_succ_self _)).mono (by omega)
 
 /-- The recursion budgets of the model are never the reason for an answer: on EVERY byte string the
